@@ -235,6 +235,7 @@ func runTreeHistory(t testing.TB, ops []string) string {
 		return ps
 	}
 	held := map[string]vTreeHold{}
+	var sentinel *PID
 	crashed := map[string]bool{}
 	var out []string
 	for _, op := range ops {
@@ -250,6 +251,9 @@ func runTreeHistory(t testing.TB, ops []string) string {
 				h.ctx = cctx
 			}
 			e.Spawn(func() Receiver { return &vTreeActor{h: h, path: arg} }, arg, h.opts()...)
+			if sentinel == nil { // an unrelated actor whose id merely EXTENDS the root's id as a string ("r/n" -> "r/n1")
+				sentinel = e.SpawnFunc(func(*Context) {}, arg, WithID("n1"))
+			}
 			live[arg] = true
 			out = append(out, "ok")
 		case "sc", "sx": // sc<parentpath>:<name>; sx = the child panics in Started (budget 0): it is gone when SpawnChild returns
@@ -469,6 +473,10 @@ func runTreeHistory(t testing.TB, ops []string) string {
 	}
 	for _, hd := range held {
 		close(hd.ch)
+	}
+	// the bystander must have been left alone, whatever stopped, crashed or ran out of restarts in this history
+	if sentinel != nil && e.Registry.get(sentinel) == nil && len(out) > 0 {
+		out[len(out)-1] += "!bystander-" + sentinel.ID + "-was-unregistered"
 	}
 	return strings.Join(out, ";")
 }
